@@ -32,6 +32,10 @@ def check(run):
                          FREE + ({'entry': 'process', 'L': S, 'N': N, 'alphabet': [ord(c) for c in '*Q?\nX;']},), 900)
         records.extend(st['records'])
         wrote += sum(1 for r in st['records'] if r.get('wrote'))
+    LIB = ('mirsym.checks.process_level', 'LibraryProcess')
+    st = run.explore('real run: streams of 1..2 library messages (answered queries, failing queries, commands, faults), N=16, every chunking: exactly one write + flush per answered message, nothing else written',
+                     LIB + ({'k': 2, 'N': 16, 'max_len': 10 if not thorough else 14},), 1200)
+    records.extend(st['records'])
     cov['vacuity']['real_run_executions_that_wrote_a_response'] = wrote
     if wrote == 0:
         raise Inconclusive('no real-run execution produced a response')
@@ -69,6 +73,9 @@ def check(run):
 
 def confirm(run, v):
     from ..checks.abstract_process import find_real_instance
+    if v['rule'] == 'LIBRARY':
+        from ..checks.process_level import confirm_library
+        return confirm_library(run, v)
     if v.get('abstract'):
         return find_real_instance(run, v)
     from .c05 import confirm as c5
